@@ -219,6 +219,7 @@ fn do_buffer(ops: &Value, want_data: bool) -> Value {
     json!({"r":"ok","steps":out})
 }
 
+#[cfg(not(verif_no_msg_enc))]
 fn build_pdu<'a>(p: &'a Value, oids: &'a [SnmpOid<'a>]) -> SnmpPdu<'a> {
     let t = p["type"].as_str().unwrap();
     let id = i64_of(&p["id"]);
@@ -233,8 +234,16 @@ fn build_pdu<'a>(p: &'a Value, oids: &'a [SnmpOid<'a>]) -> SnmpPdu<'a> {
     }
 }
 
+// Fallback level of the harness (bin/build): the message structs are built here by struct literals, so a change that adds a
+// field to one of them would stop the whole replay binary from compiling; it is then built without this operation.
+#[cfg(verif_no_msg_enc)]
+fn do_msg_rt(_req: &Value) -> Value {
+    json!({"r":"unavailable"})
+}
+
 // Encode a request message with the library's encoder, decode it back with the
 // library's decoder; report octets and the projection of the decoded message.
+#[cfg(not(verif_no_msg_enc))]
 fn do_msg_rt(req: &Value) -> Value {
     let ver = req["ver"].as_str().unwrap();
     let oid_texts: Vec<String> = req["pdu"]["oids"].as_array().unwrap().iter().map(|x| x.as_str().unwrap().to_string()).collect();
